@@ -9,6 +9,7 @@
 package main
 
 import (
+	"os"
 	"context"
 	"fmt"
 	"sync"
@@ -61,7 +62,10 @@ func condOf(xr map[string]any, typ string) map[string]any {
 type pipeCase struct {
 	Ready   []bool `json:"ready"`   // per resource: function says READY_TRUE
 	Invalid []bool `json:"invalid"` // per resource: apply is rejected as invalid
-	XRReady string `json:"xrReady"` // unset | true | false
+	XRReady string `json:"xrReady"` // unset | true | false (what the first step returns)
+	// XRReady1: what the second step does to the composite's readiness in the desired state it
+	// returns: keep (pass through) | unset (drops it) | true | false. The LAST step's output counts.
+	XRReady1 string `json:"xrReadySecondStep,omitempty"`
 	Conds   []cond `json:"conds"`   // conditions the function returns
 	Fatal   string `json:"fatal,omitempty"` // "", "second-reconcile-step0", "second-reconcile-step1"
 }
@@ -147,6 +151,16 @@ func (w *worker) program(step int, req *fnv1.RunFunctionRequest) (*fnv1.RunFunct
 		}
 		rsp.Conditions = fnConds(cs)
 	}
+	if step == 1 {
+		switch p.XRReady1 {
+		case "unset":
+			d.Composite = nil
+		case "true":
+			d.Composite = &fnv1.Resource{Ready: fnv1.Ready_READY_TRUE}
+		case "false":
+			d.Composite = &fnv1.Resource{Ready: fnv1.Ready_READY_FALSE}
+		}
+	}
 	if fatalHere {
 		rsp.Results = []*fnv1.Result{{Severity: fnv1.Severity_SEVERITY_FATAL, Message: "scripted fatal"}}
 	}
@@ -222,7 +236,11 @@ func (w *worker) runPipe(i int, p pipeCase, name string) {
 			anyInvalid = true
 		}
 	}
-	mayBeReady := p.XRReady == "true" || (p.XRReady != "false" && allReady)
+	eff := p.XRReady // the explicit readiness in the final desired state
+	if p.XRReady1 != "" && p.XRReady1 != "keep" {
+		eff = p.XRReady1
+	}
+	mayBeReady := eff == "true" || (eff != "false" && allReady)
 	wit := func() any {
 		return map[string]any{"case": p, "xr_status": world.GetObj(xrKey)["status"], "events": env.Rec.Events(0)}
 	}
@@ -375,12 +393,15 @@ func (w *worker) runClaim(i int, name string) {
 	// reconcile, an XR read that was served Ready=True
 	var lastServedReady *bool
 	var violated string
+	var finalReady, finalObs, finalSeen bool
+	var finalEv string
 	world.AddHook(func(_ *sim.View, ev *sim.Event) {
 		if ev.Actor != "claim" {
 			return
 		}
 		if ev.Call == 0 {
 			lastServedReady = nil
+			finalSeen = false
 		}
 		// the reconcile observes the XR through its read AND through the object the server returns
 		// for its own apply/patch/update of the XR (the SSA syncer continues with that response)
@@ -391,15 +412,26 @@ func (w *worker) runClaim(i int, name string) {
 		}
 		if ev.Key == ck && ev.Changed && ev.After != nil {
 			rc := condOf(ev.After, "Ready")
-			if rc != nil && rc["status"] == "True" && (lastServedReady == nil || !*lastServedReady) {
-				violated = fmt.Sprintf("%s stores claim Ready=True but the XR read of this reconcile was not served Ready=True", ev.Short())
+			if rc != nil && rc["status"] == "True" && (lastServedReady == nil || !*lastServedReady) && violated == "" {
+				violated = fmt.Sprintf("%s stores claim Ready=True but the latest observation of the XR in this reconcile was not Ready=True", ev.Short())
 			}
 		}
+		// the LAST status write of a reconcile is its verdict, also when it leaves Ready=True as it was
+		if ev.Key == ck && ev.After != nil && ev.Err == "" && ev.IsWrite() && ev.Sub == "status" {
+			rc := condOf(ev.After, "Ready")
+			finalReady = rc != nil && rc["status"] == "True"
+			finalObs = lastServedReady != nil && *lastServedReady
+			finalEv = ev.Short()
+			finalSeen = true
+		}
 	})
+	// the claim controller reads XRs through a cache; in a "stale" step the cache still holds the
+	// XR as it was before the XR controller's latest status write (frozen), otherwise it is current
 	lag := int64(r.IntN(6))
+	var frozen int64
 	lc := world.LaggingClient("claim", func(gk schema.GroupKind) (int64, bool) {
-		if gk.Kind == "XThing" && lag > 0 {
-			return lag, true
+		if gk.Kind == "XThing" && frozen > 0 {
+			return -frozen, true
 		}
 		return 0, false
 	})
@@ -416,10 +448,28 @@ func (w *worker) runClaim(i int, name string) {
 		} else {
 			_ = unstructured.SetNestedSlice(u.Object, []any{map[string]any{"type": "Ready", "status": st, "reason": "Scripted", "lastTransitionTime": "2024-01-01T00:00:00Z"}}, "status", "conditions")
 		}
+		frozen = 0
+		if lag > 0 && s > 0 && r.IntN(2) == 0 {
+			frozen = world.RV() // the cache has not seen the status write below yet
+			st += "(cache stale)"
+			states[len(states)-1] = st
+		}
 		if err := xrc.Status().Update(context.Background(), u); err != nil {
 			panic(err)
 		}
-		_, _, _ = ce.Reconcile("ns1", "c1")
+		lf := world.LogLen()
+		_, rerr, crashed := ce.Reconcile("ns1", "c1")
+		if os.Getenv("DBG") != "" {
+			fmt.Println("step", s, "xr state", st, "lag", lag, "err", rerr, "lastServed", lastServedReady != nil && *lastServedReady, "claim", condOf(world.GetObj(ck), "Ready"))
+			for _, e := range world.Log(lf) {
+				rc := condOf(e.After, "Ready")
+				fmt.Println("   ", e.Short(), e.Note, "after.ready=", rc != nil && rc["status"] == "True")
+			}
+		}
+		_, _ = rerr, crashed
+		if finalSeen && finalReady && !finalObs && violated == "" {
+			violated = fmt.Sprintf("step %d: %s is the reconcile's last claim status write and leaves Ready=True although the latest observation of the XR before it was not Ready=True", s, finalEv)
+		}
 		// claim Ready must also never be True while no XR read ever returned True
 	}
 	if violated != "" {
@@ -457,6 +507,7 @@ func main() {
 					q := p
 					q.XRReady = xr
 					q.Conds = cv
+					q.XRReady1 = []string{"keep", "unset", "true", "false", "keep", "unset"}[len(pipes)%6]
 					pipes = append(pipes, q)
 					if ci >= 1 && n <= 2 {
 						for _, f := range []string{"second-reconcile-step0", "second-reconcile-step1"} {
